@@ -107,7 +107,7 @@ theorem exprState_parses : ∃ e st', parseExpr 10 exprState = .ok (e, st') ∧ 
 
 example : ∃ x r, (x, r) ∈ gExpr 24 (abs exprState) ∧ r.length = 1 := by
   obtain ⟨e, st', h, hl⟩ := exprState_parses
-  exact ⟨_, _, (parse_expr_sound h).2.2 24 (by rw [hl]; decide), by simp [abs, hl]⟩
+  exact ⟨_, _, (parse_expr_sound h).2.2 24 (by rw [hl]; decide), by rw [abs_length, hl]⟩
 
 /-! ### 2. delimited lists -/
 
@@ -119,7 +119,7 @@ theorem parse_delimited_sound {α β : Type} (stop : Token) (peeks : List Token)
         (st.toks.length ≤ st1.toks.length + B → (er x, abs st1) ∈ p (abs st)))
     (fuel : Nat) (st : PState) (xs : List α) (st' : PState)
     (h : parseDelimited stop true peeks item fuel st = .ok (xs, st')) :
-    Suf st' st ∧ nextTok st' = some stop ∧ xs.length + st'.toks.length ≤ st.toks.length ∧
+    Suf st' st ∧ peekTok st' = some stop ∧ xs.length + st'.toks.length ≤ st.toks.length ∧
     (st.toks.length ≤ st'.toks.length + B →
        (xs = [] ∧ st' = st) ∨ SepBy p comma (xs.map er) (abs st) (abs st')) :=
   parseDelimited_commas_sound stop peeks item er p B hitem fuel st xs st' h
@@ -131,7 +131,7 @@ theorem parse_delimited_complete {α β : Type} (stop : Token) (peeks : List Tok
     (hitem : ∀ st a r1, (a, r1) ∈ p (abs st) →
         (r1.head? = some comma ∨ r1.head? = some (litTok stop)) →
         ∃ x st1, item st = .ok (x, st1) ∧ er x = a ∧ abs st1 = r1 ∧
-          st1.toks.length < st.toks.length ∧ peekIn st peeks = true ∧ nextTok st ≠ some stop)
+          st1.toks.length < st.toks.length ∧ peekIn st peeks = true ∧ peekTok st ≠ some stop)
     {xs : List β} {r : List STok} (st : PState) (h : SepBy p comma xs (abs st) r)
     (hr : r.head? = some (litTok stop)) (fuel : Nat)
     (hfuel : xs.length + 1 ≤ fuel ∨ st.toks.length + 1 ≤ fuel) :
@@ -202,23 +202,28 @@ def docState : PState := ⟨[
   tk .ExportKeyword "export", tk .Ident "x", tk .Dot ".", tk .Ident "y", tk .AsKeyword "as",
   tk .String "\"z\"", tk .Semicolon ";"], 0, 0, [], 0, 0⟩
 
-theorem docState_wf : WF docState := by
+theorem wf_of_noPath (st : PState) (h : st.toks.all (fun t => t.tok? != some .PackagePath) = true) :
+    WF st := by
   intro t ht hk
-  simp [docState, tk] at ht
-  rcases ht with rfl | rfl | rfl | rfl | rfl | rfl | rfl | rfl | rfl | rfl | rfl | rfl | rfl | rfl | rfl |
-    rfl | rfl | rfl | rfl <;> simp at hk
+  have := List.all_eq_true.mp h t ht
+  simp [tok?_ok hk] at this
+
+theorem docState_wf : WF docState := wf_of_noPath _ (by decide +kernel)
 
 def okStatements (n : Nat) (r : Except ParseError Document) : Bool :=
   match r with
   | .ok d => d.statements.length == n
   | .error _ => false
 
-theorem docState_parses : ∃ d, parseTokens docState = .ok d ∧ d.statements.length = 2 := by
-  have h : okStatements 2 (parseTokens docState) = true := by decide +kernel
+theorem okStatements_iff {n : Nat} {r : Except ParseError Document} (h : okStatements n r = true) :
+    ∃ d, r = .ok d ∧ d.statements.length = n := by
   unfold okStatements at h
   split at h
-  · exact ⟨_, by assumption, by simpa using h⟩
+  · exact ⟨_, rfl, by simpa using h⟩
   · cases h
+
+theorem docState_parses : ∃ d, parseTokens docState = .ok d ∧ d.statements.length = 2 :=
+  okStatements_iff (by decide +kernel)
 
 example : ∃ d', d' ∈ derivations (abs docState) := by
   obtain ⟨d, h, _⟩ := docState_parses
@@ -345,23 +350,15 @@ theorem verdict_of_limited (src : Str) (d' : Document)
         simp only [hn, Bool.not_true, Bool.false_eq_true, if_false] at h
         simpa [nestOK] using h
 
-def okDoc (n : Nat) (r : Except ParseError Document) : Bool :=
-  match r with
-  | .ok d => d.statements.length == n
-  | .error _ => false
-
 /-- non-vacuity at text level (a comment, a `%`-escaped identifier, a trailing comma) -/
 theorem text_parses :
-    okDoc 1 (parseDocument "package a:b; /**/let %x = new c:d { y, };".toList) = true := by
-  decide +kernel
+    ∃ d, parseDocument "package a:b; /**/let %x = new c:d { y, };".toList = .ok d ∧
+      d.statements.length = 1 :=
+  okStatements_iff (by decide +kernel)
 
 example : ∃ d', verdictWith Generated.maxNestingDepth
     "package a:b; /**/let %x = new c:d { y, };".toList = .accept d' := by
-  apply (accepts_iff _).mp
-  have h := text_parses
-  unfold okDoc at h
-  split at h
-  · exact ⟨_, by assumption⟩
-  · cases h
+  obtain ⟨d, h, _⟩ := text_parses
+  exact (accepts_iff _).mp ⟨d, h⟩
 
 end Wac.Props.C12Grammar
